@@ -118,23 +118,44 @@ ALLOW: Dict[str, str] = {
     'FJLexer.NUMBER:get_char_value_and_length(n[1:-1])[0]': 'the helper returns a 2-tuple',
     'FJLexer.NUMBER:int(n, 16)': 'token text matched hex_num',
     'FJLexer.NUMBER:int(n, 2)': 'token text matched bin_num',
-    'FJLexer.NUMBER:int(n)': 'token text matched dec_num',
+    # (int(<decimal text>) is NOT excused by the token regex alone: python refuses more than 4300 digits - finding F16)
+    'decimal_to_int:int(digits[i:i + 512])': 'at most 512 digits of the dec_num token text: below the smallest conversion limit python allows (640)',
     'FJLexer.NUMBER:int(t.value)': 'a one-character NUMBER token is a decimal digit',
     'save_debugging_labels:lzma.compress(...)': 'compression of in-memory bytes with the fixed, valid filter chain',
     '_pow:int(base ** exp)': 'int() of an int',
 }
 
 
+# side conditions of ALLOW entries: (condition text, polarity) - one of them must be known at the site
+ALLOW_IF: Dict[str, List[Tuple[str, bool]]] = {
+    'FJLexer.NUMBER:int(t.value)': [('len(n) >= 2', False), ('len(t.value) >= 2', False)],
+}
+
+
 def discharge(repo: Repo, rel: str, q: str, fn: ast.FunctionDef, s: Site, sub: Callable[[str, str], bool],
               ctx: Dict[str, Any]) -> Optional[str]:
     node = s.node
+    if s.need_all:
+        hs = [lexical_handler(node, [c], sub) for c in s.classes]
+        if all(h is not None and handler_converts(h, sub) in ('library', 'handled') for h in hs):
+            return f'HANDLER: every one of {"/".join(s.classes)} is caught (except {sorted({norm(h.type) if h.type else "*" for h in hs if h})}) and converted'
+        missing = [c for c, h in zip(s.classes, hs) if h is None or handler_converts(h, sub) not in ('library', 'handled')]
+        s.what = f'{s.what} (not converted: {"/".join(missing)})'
+        return None
     h = lexical_handler(node, s.classes, sub)
     if h is not None:
         conv = handler_converts(h, sub)
         if conv in ('library', 'handled'):
             return f'HANDLER: except {norm(h.type) if h.type else "*"} -> {conv}'
     akey = s.key.replace(ctx.get('macro_call_scope', '\0'), 'PreprocessorData.<MacroCallScope>')     # the private class may be renamed
-    if akey in ALLOW:
+    def allowed(key: str) -> bool:
+        # an entry may carry a side condition: one of the listed facts has to dominate the site
+        need = ALLOW_IF.get(key)
+        if need is None:
+            return key in ALLOW
+        facts = GuardFacts(dominating_guards(node))
+        return key in ALLOW and any(facts.get(t) is pol for t, pol in need)
+    if allowed(akey):
         return f'ALLOW: {ALLOW[akey]}'
     # the same construct spelled through single-definition locals (`hex_digits = s[2:4]` ... `int(hex_digits, 16)`; `value = self.value`)
     if ':' in akey and isinstance(node, ast.expr):
@@ -142,7 +163,7 @@ def discharge(repo: Repo, rel: str, q: str, fn: ast.FunctionDef, s: Site, sub: C
             rkey = akey.split(':', 1)[0] + ':' + norm(resolve_names(fn, node))
         except (AnalysisError, RecursionError):
             rkey = akey
-        if rkey in ALLOW:
+        if allowed(rkey):
             return f'ALLOW: {ALLOW[rkey]} (read through locals)'
     guards = dominating_guards(node)
     # loop conditions dominate their bodies
@@ -213,6 +234,8 @@ def discharge(repo: Repo, rel: str, q: str, fn: ast.FunctionDef, s: Site, sub: C
                 return 'CONST: shift by a scaled enumerate() index'
             return None
         if isinstance(op, ast.Pow):
+            if isinstance(node.left, ast.Constant) and isinstance(right, ast.Call) and dotted(right.func) == 'len':      # type: ignore[attr-defined]
+                return 'CONST: a literal base to the power of a length (non-negative, no larger than an object already in memory)'
             if q == '_pow' and gd.get('exp < 0') is False:
                 return 'GUARD: negative exponents rejected above (huge exponents: running time not decided)'
             return None
